@@ -301,6 +301,32 @@ def run(case):
             except ValueError:
                 refused = True
             case.check(refused, "reshape accepted a template and a shape that contradict each other", None)
+        # a loader that reads its tomogram from an MRC file (voxel size from the header, or given) samples like the
+        # loader built on the array
+        rng_f = gen.rng_for(p["iseed"], "c02-imread")
+        if isinstance(img, np.ndarray) and img.dtype == np.float32 and rng_f.random() < 0.35:
+            import os as _os, tempfile as _tf
+            import mrcfile
+
+            from_header = float(scale) in (1.0, 0.5, 2.0, 0.25) and rng_f.random() < 0.7   # exact in the float32 header
+            fd_, mpath = _tf.mkstemp(suffix=".mrc", prefix="c02_")
+            _os.close(fd_)
+            try:
+                with mrcfile.new(mpath, overwrite=True) as mrc:
+                    mrc.set_data(np.ascontiguousarray(img))
+                    mrc.voxel_size = (scale * 10 if from_header else 7.7,) * 3
+                fl = SubtomogramLoader.imread(mpath, mole, order=order, scale=None if from_header else scale,
+                                              output_shape=shape, corner_safe=p["corner_safe"],
+                                              chunks=("auto", (8, 8, 8))[int(rng_f.integers(0, 2))])
+                f0 = np.asarray(fl.asnumpy())
+                case.count("loaders_from_mrc_files")
+                case.check(abs(float(fl.scale) - scale) <= 1e-6 * scale, "loader read from a file has the wrong scale", None,
+                           got=float(fl.scale), want=scale, from_header=from_header)
+                case.check(f0.shape == a0.shape and float(np.abs(f0 - a0).max()) <= TOLERANCES["entry_points_rel"] * amp,
+                           "a loader that reads the tomogram from a file samples differently from the loader on the array",
+                           None, from_header=from_header, shape=f0.shape)
+            finally:
+                _os.remove(mpath)
         # the loader follows its molecules: after an in-place edit of the Molecules object the very same loader
         # samples the new poses (compared with a fresh loader built at the new poses)
         delta = rng.uniform(-1.0, 1.0, size=(n, 3)) * scale
